@@ -61,7 +61,10 @@ func runC15(t *testing.T, rc *core.RunCtx) {
 	}
 	instant := tp.Draw(3) != 0
 	parkAppended := tp.Draw(3) == 0
-	rc.Desc = fmt.Sprintf("min=%d max=%d warm=%d errKill=%d heartbeat=%v forks=%v events=%v instantNet=%v parkQueued=%v", mn, mx, warm, errKill, hb, forks, evs, instant, parkAppended)
+	// the pool settings are plain fields: they may be set without SetPool's
+	// normalisation (Min above Max stays as written)
+	direct := tp.Draw(3) == 0
+	rc.Desc = fmt.Sprintf("min=%d max=%d warm=%d errKill=%d heartbeat=%v forks=%v events=%v instantNet=%v parkQueued=%v directFields=%v", mn, mx, warm, errKill, hb, forks, evs, instant, parkAppended, direct)
 	rc.Shape = rc.Desc
 
 	core.Bubble(t, rc, func(s *core.Sim) {
@@ -195,8 +198,10 @@ func runC15(t *testing.T, rc *core.RunCtx) {
 			}
 			if !was && is {
 				s.Probe("pool-ready")
-				if mirrorReady < effMin {
-					s.Fail("C15/ready-short", "PoolReady became active after %s%v with %d ready workers, Min is %d (Max %d): %+v", tx.Type(), called, mirrorReady, mn, mx, ws)
+				// (a worker with a recent error is not a ready worker: the
+				// supervisor's own worker lists say so)
+				if cleanReady < effMin {
+					s.Fail("C15/ready-short", "PoolReady became active after %s%v with %d error-free ready workers (%d ready mirrors), Min is %d (Max %d): %+v", tx.Type(), called, cleanReady, mirrorReady, mn, mx, ws)
 					return
 				}
 			}
@@ -231,7 +236,12 @@ func runC15(t *testing.T, rc *core.RunCtx) {
 		}})
 
 		s.Go("boot", func() {
-			sup.SetPool(mn, mx, warm, 0)
+			if direct {
+				sup.Min, sup.Max, sup.Warm, sup.MaxClientWorkers = mn, mx, warm, mx
+				sup.CheckPool()
+			} else {
+				sup.SetPool(mn, mx, warm, 0)
+			}
 			sup.Start("localhost:7000")
 			select {
 			case <-sup.Mach.When1(ssS.PoolReady, nil):
